@@ -1018,14 +1018,13 @@ class PDFDocument:
 
         def lookup(d: Dict[str, Any]) -> Any:
             if "Limits" in d:
-                (k1, k2) = list_value(d["Limits"])
+                (k1, k2) = (resolve1(k) for k in list_value(d["Limits"]))
                 if key < k1 or k2 < key:
                     return None
             if "Names" in d:
                 objs = list_value(d["Names"])
-                names = dict(
-                    cast(Iterator[Tuple[Union[str, bytes], Any]], choplist(2, objs)),
-                )
+                # the key strings may be indirect objects
+                names = {resolve1(k): v for (k, v) in choplist(2, objs)}
                 return names[key]
             if "Kids" in d:
                 for c in list_value(d["Kids"]):
